@@ -62,7 +62,7 @@ func runBounds(r *Run, rc *RuleCtx, fns []*ssa.Function, jt *justTable, sums map
 				rc.Obligation(true, false)
 				continue
 			}
-			if je := jt.match(rc.rr.ID, fnName(fn), ob.Desc); je != nil {
+			if je := jt.match(rc.rr.ID, fnName(fn), ob.Canon); je != nil {
 				rc.Instance(key, true, map[string]interface{}{"fn": fnName(fn), "site": ob.Desc, "justified": je.Reason})
 				rc.Obligation(false, true)
 				continue
